@@ -24,9 +24,10 @@ const (
 	txStray            // stray bytes inserted: validity unknown
 	txEmpty            // empty / blank / comment-only
 	txBytes            // arbitrary bytes
+	txTruncated        // a valid text, optionally followed by the beginning of another rule, cut off after some token
 )
 
-var txNames = [...]string{"valid", "broken", "duplicate-name", "token-mutated", "stray-bytes", "empty", "arbitrary-bytes"}
+var txNames = [...]string{"valid", "broken", "duplicate-name", "token-mutated", "stray-bytes", "empty", "arbitrary-bytes", "truncated"}
 
 var entryNames = [...]string{"BuildRuleFromString", "BuildRuleWithIncremental", "NewGenginePool", "UpdatePooledRules", "UpdatePooledRulesIncremental"}
 
@@ -117,7 +118,26 @@ func (g *G) genCompileOp1(nNames int, ver *int) *compileOp {
 		b.WriteString(g.richRule(id, sal, *ver))
 	}
 	op.Text = b.String()
-	switch c := g.Intn(11); {
+	switch c := g.Intn(12); {
+	case c == 11:
+		op.Class = txTruncated
+		full := op.Text + g.richRule(nNames+1, 0, *ver)
+		toks := tokRe.FindAllStringIndex(full, -1)
+		// cut after a token of the appended rule (so that what precedes is complete) or anywhere
+		lo := 0
+		if g.Intn(2) == 0 {
+			for i, t := range toks {
+				if t[0] >= len(op.Text) {
+					lo = i
+					break
+				}
+			}
+		}
+		k := lo + g.Intn(len(toks)-lo)
+		op.Text = full[:toks[k][1]]
+		if g.Intn(2) == 0 {
+			op.Text += "\n"
+		}
 	case c == 10:
 		op.Class = txBytes
 		n := 1 + g.Intn(40)
